@@ -3,18 +3,18 @@
 import os
 d = os.path.dirname(os.path.abspath(__file__))
 t = open(os.path.join(d, "template.go.txt")).read()
-for pkg, fp, curve, a24, bits, mask, limbc, fold in [
-    ("x25519", "fp25519", "C25519", "121666", "255", "validPk[31] &= (1 << (255 % 8)) - 1", "19", "38"),
-    ("x448", "fp448", "C448", "39082", "448", "", "1", "0"),
+for pkg, fp, curve, a24, bits, mask, limbc, fold, lhex in [
+    ("x25519", "fp25519", "C25519", "121666", "255", "validPk[31] &= (1 << (255 % 8)) - 1", "19", "38", "1000000000000000000000000000000014def9dea2f79cd65812631a5cf5d3ed"),
+    ("x448", "fp448", "C448", "39082", "448", "", "1", "0", "3fffffffffffffffffffffffffffffffffffffffffffffffffffffff7cca23e9c44edb49aed63690216cc2728dc58f552378c292ab5844f3"),
 ]:
     s = t
-    for k, v in {"@PKG@": pkg, "@FP@": fp, "@CURVE@": curve, "@A24@": a24, "@BITS@": bits, "@MASK@": mask, "@LIMBC@": limbc, "@FOLD@": fold}.items():
+    for k, v in {"@PKG@": pkg, "@FP@": fp, "@CURVE@": curve, "@A24@": a24, "@BITS@": bits, "@MASK@": mask, "@LIMBC@": limbc, "@FOLD@": fold, "@LHEX@": lhex}.items():
         s = s.replace(k, v)
     s = "\n".join(l.rstrip() for l in s.split("\n"))
     open("/verif/harness/dh/%s/zz_verif_c06_test.go" % pkg, "w").write(s)
 
 ft = open(os.path.join(d, "fp_template.go.txt")).read()
-for fp, fold in [("fp25519", "38"), ("fp448", "0")]:
-    s = ft.replace("@FP@", fp).replace("@FOLD@", fold)
+for fp, fold, mg in [("fp25519", "38", "modpGeneric"), ("fp448", "0", "Modp")]:
+    s = ft.replace("@FP@", fp).replace("@FOLD@", fold).replace("@MODPGENERIC@", mg)
     os.makedirs("/verif/harness/math/%s" % fp, exist_ok=True)
     open("/verif/harness/math/%s/zz_verif_c06_test.go" % fp, "w").write(s)
